@@ -163,25 +163,24 @@ fn _parse_with_lexer_ctx(lexer: &mut Lexer, r: &impl Resolve, ctx: Option<&Conte
         // First backup position
         let pos_bk = lexer.get_pos();
 
-        let second_lexeme = t!(lexer.next());
-        if second_lexeme.is_integer() {
-            let third_lexeme = t!(lexer.next());
-            if third_lexeme.equals(b"R") {
-                // It is indeed a reference to an indirect object
-                check(flags, ParseFlags::REF)?;
-                Primitive::Reference (PlainRef {
-                    id: t!(first_lexeme.to::<ObjNr>()),
-                    gen: t!(second_lexeme.to::<GenNr>()),
-                })
-            } else {
-                check(flags, ParseFlags::INTEGER)?;
-                // We are probably in an array of numbers - it's not a reference anyway
-                lexer.set_pos(pos_bk); // (roll back the lexer first)
-                Primitive::Integer(t!(first_lexeme.to::<i32>()))
-            }
+        // look ahead for `gen R`; reaching the end of the buffer means it is but a number
+        let is_reference = match lexer.next() {
+            Ok(second_lexeme) if second_lexeme.is_integer() => match lexer.next() {
+                Ok(third_lexeme) if third_lexeme.equals(b"R") => Some(second_lexeme),
+                _ => None
+            },
+            _ => None
+        };
+        if let Some(second_lexeme) = is_reference {
+            // It is indeed a reference to an indirect object
+            check(flags, ParseFlags::REF)?;
+            Primitive::Reference (PlainRef {
+                id: t!(first_lexeme.to::<ObjNr>()),
+                gen: t!(second_lexeme.to::<GenNr>()),
+            })
         } else {
             check(flags, ParseFlags::INTEGER)?;
-            // It is but a number
+            // We are probably in an array of numbers - it's not a reference anyway
             lexer.set_pos(pos_bk); // (roll back the lexer first)
             Primitive::Integer(t!(first_lexeme.to::<i32>()))
         }
